@@ -7,8 +7,9 @@ Driver commands of properties C04 and C15 (core Lean only).  Command names start
   c04.q     <kind> <cfg> <recs> <phase> <strategy> <qs> -> Chunks answers; phase pre | rt | merged
 
   kind  bai | csi | tbx
-  cfg   bai: -      csi: minShift,depth,version,auxhex      tbx: format,zb,nc,bc,ec,meta,skip,namehex/namehex/…
-  recs  rid,start,end,flags,cb,ce;…   flags: 1 placed, 2 mapped, 4 mate-unmapped (bai)
+  cfg   bai: - or the query-time MergeStrategy (identity|adjacent|squash|compress:n)      csi: minShift,depth,version,auxhex      tbx: format,zb,nc,bc,ec,meta,skip,namehex/namehex/…
+  recs  rid,start,end,flags,cb,ce;…   flags: 1 placed, 2 mapped, 4 mate-unmapped (bai); the element `S` = the index
+        is written once at this point (sort() in place): a second-use history
   qs    rid,beg,end;…
 -/
 import Hts.Drv.Util
@@ -33,22 +34,24 @@ def GRec.mapped (r : GRec) : Bool := r.flags / 2 % 2 = 1
 def GRec.mateUnm (r : GRec) : Bool := r.flags / 4 % 2 = 1
 
 inductive Cfg
-  | bai
+  | bai (qs : List Chunk → List Chunk)   -- the `MergeStrategy` field (query time); Adjacent when nil
   | csi (minShift depth version : Nat) (aux : Bytes)
   | tbx (hdr : Tabix.Header) (names : List Tabix.Name)
 
 inductive St
-  | bai (i : Index)
+  | bai (i : Index) (qs : List Chunk → List Chunk)
   | csi (i : Csi.CIndex)
   | tbx (t : Tabix.TIndex) (pool : List Tabix.Name)
 
 def parseInts (s : String) : Option (List Int) := (s.splitOn ",").mapM parseInt
 
-def parseRecs (s : String) : Option (List GRec) :=
+/-- `none` is the marker "S": the index is written once at this point (`sort()` in place) -/
+def parseRecs (s : String) : Option (List (Option GRec)) :=
   if s == "-" then some [] else
-  (s.splitOn ";").mapM (fun t => do
+  (s.splitOn ";").mapM (fun t =>
+    if t == "S" then some none else do
     match ← parseInts t with
-    | [rid, st, en, fl, cb, ce] => some ⟨rid, st, en, fl.toNat, cb, ce⟩
+    | [rid, st, en, fl, cb, ce] => some (some ⟨rid, st, en, fl.toNat, cb, ce⟩)
     | _ => none)
 
 def parseQueries (s : String) : Option (List (Int × Int × Int)) :=
@@ -60,9 +63,17 @@ def parseQueries (s : String) : Option (List (Int × Int × Int)) :=
 
 def toBytes (ns : List Nat) : Bytes := ns.map UInt8.ofNat
 
+def parseStrategy (s : String) : Option (List Chunk → List Chunk) :=
+  if s == "identity" then some id
+  else if s == "adjacent" then some Local.adjacent
+  else if s == "squash" then some Local.squash
+  else match s.splitOn ":" with
+    | ["compress", n] => (parseInt n).map Local.compressor
+    | _ => none
+
 def parseCfg (kind cfg : String) : Option Cfg :=
   match kind with
-  | "bai" => some .bai
+  | "bai" => if cfg == "-" then some (.bai Local.adjacent) else (parseStrategy cfg).map .bai
   | "csi" =>
     match cfg.splitOn "," with
     | [ms, d, v, aux] => do
@@ -89,7 +100,7 @@ def parseCfg (kind cfg : String) : Option Cfg :=
   | _ => none
 
 def initSt : Cfg → St
-  | .bai => .bai {}
+  | .bai qs => .bai {} qs
   | .csi ms d v aux => .csi { aux := aux, version := v, minShift := ms, depth := d }
   | .tbx h pool => .tbx { hdr := h } pool
 
@@ -103,11 +114,11 @@ def poolName (pool : List Tabix.Name) (i : Int) : Tabix.Name :=
 def addOne (st : St) (r : GRec) : St × AddRes :=
   let c : Chunk := ⟨r.cb, r.ce⟩
   match st with
-  | .bai i =>
+  | .bai i qs =>
     let x := Bai.add Coord.binFor i
       { hasRef := decide (r.rid ≥ 0), rid := r.rid, pos := r.start, stop := r.stop,
         unmapped := !r.mapped, mateUnmapped := r.mateUnm, chunk := c }
-    (.bai x.1, x.2)
+    (.bai x.1 qs, x.2)
   | .csi i =>
     let x := Csi.add Coord.reg2bin i
       { rid := r.rid, start := r.start, stop := r.stop, chunk := c, placed := r.placed, mapped := r.mapped }
@@ -121,23 +132,30 @@ def codeOf : AddRes → Char
   | .ok => 'o' | .errRange => 'r' | .errRefOrder => 'f' | .errPosOrder => 'p' | .errNoRef => 'n'
   | .panicIndex => 'X'
 
-/-- adds until the first panic -/
-def build (st : St) : List GRec → List Char → St × List Char
+/-- what a `WriteIndex`/`WriteTo` call does to the index in memory: `sort()` -/
+def sortSt : St → St
+  | .bai i qs => .bai (Index.sort i) qs
+  | .csi i => .csi (Csi.sort i)
+  | .tbx t pool => .tbx { t with idx := Index.sort t.idx } pool
+
+/-- adds until the first panic; the marker sorts the index in place -/
+def build (st : St) : List (Option GRec) → List Char → St × List Char
   | [], acc => (st, acc.reverse)
-  | r :: rs, acc =>
+  | none :: rs, acc => build (sortSt st) rs acc
+  | some r :: rs, acc =>
     let x := addOne st r
     if x.2 = .panicIndex then (x.1, ('X' :: acc).reverse) else build x.1 rs (codeOf x.2 :: acc)
 
 def writeSt : St → Bytes
-  | .bai i => writeBai i
+  | .bai i _ => writeBai i
   | .csi i => writeCsi i
   | .tbx t _ => writeTabix t
 
 /-- `none` = the reader returned a nil index without an error -/
 def rereadSt (st : St) (bs : Bytes) : Except Fault (Option St) :=
   match st with
-  | .bai _ => match readBai bs with
-    | .ok i => .ok (some (.bai i))
+  | .bai _ qs => match readBai bs with
+    | .ok i => .ok (some (.bai i qs))
     | .error e => .error e
   | .csi _ => match readCsi bs with
     | .ok i => .ok (some (.csi i))
@@ -146,16 +164,8 @@ def rereadSt (st : St) (bs : Bytes) : Except Fault (Option St) :=
     | .ok t => .ok (some (.tbx t pool))
     | .error e => .error e
 
-def parseStrategy (s : String) : Option (List Chunk → List Chunk) :=
-  if s == "identity" then some id
-  else if s == "adjacent" then some Local.adjacent
-  else if s == "squash" then some Local.squash
-  else match s.splitOn ":" with
-    | ["compress", n] => (parseInt n).map Local.compressor
-    | _ => none
-
 def mergeSt (s : List Chunk → List Chunk) : St → St
-  | .bai i => .bai (Index.mergeChunks s i)
+  | .bai i qs => .bai (Index.mergeChunks s i) qs
   | .csi i => .csi (Csi.mergeChunks s i)
   | .tbx t pool => .tbx (Tabix.mergeChunks s t) pool
 
@@ -168,7 +178,7 @@ def qerrText : QErr → String
 def answer (st : St) (q : Int × Int × Int) : String :=
   let (rid, b, e) := q
   match st with
-  | .bai i => match Bai.chunks Coord.overlappingBinsFor Local.adjacent i rid b e with
+  | .bai i qs => match Bai.chunks Coord.overlappingBinsFor qs i rid b e with
     | .ok cs => chunksText cs
     | .error x => qerrText x
   | .csi i => chunksText (Csi.chunks Coord.reg2bins Local.adjacent i rid b e)
